@@ -7,9 +7,10 @@ From Coq Require Import List NArith ZArith Arith Bool.
 From HV Require Import Base.Res Base.Str Base.IssueTypes Gen.ErrorCodes.
 Import ListNotations.
 
-(* Mirror of harness/c12.py FIXED.  false = the code as it is (decoration appends
-   the location suffix every time it runs); true = decoration made idempotent by the
-   proposed one-line guard in _update_error_with_char_pos. *)
+(* Mirror of harness/c12.py FIXED.  true = the code as it is in /repo since fix commit 5312cdc
+   (_update_error_with_char_pos returns early when 'char_index' is already present, so decoration
+   is idempotent); false = the behaviour BEFORE that commit (the location suffix was appended on
+   every decoration -- finding C12-F1, repaired). *)
 Definition code_is_fixed : bool := true.
 
 (* ------------------------------------------------------------------ python values *)
@@ -223,8 +224,9 @@ Definition get_tag_span_to_error_object (i : issue) : res (option (nat * nat)) :
       end
   end.
 
-(* ErrorHandler._update_error_with_char_pos; [fixed] adds the guard
-   "if 'char_index' in error_object: return" in front. *)
+(* ErrorHandler._update_error_with_char_pos.  [fixed] = true: with the guard
+   "if 'char_index' in error_object: return" in front (in /repo since fix commit 5312cdc);
+   false: the function before that commit. *)
 Definition update_error_with_char_pos (fixed : bool) (i : issue) : res issue :=
   if fixed && (match i_char i with Some _ => true | None => false end) then Ok i else
   let* sp := get_tag_span_to_error_object i in
@@ -282,7 +284,10 @@ Definition validate (fixed : bool) (h : handler) (basic full : list issue) : res
 
 (* ------------------------------------------------------------------ ordering *)
 
-Inductive kv : Set := KI (z : Z) | KS (s : str).
+(* components of the key tuple of sort_issues._get_keys (as of fix commit 2e53521):
+     key in int_sort_list : the raw value, default -1        -> KI z | KS s
+     any other key        : (0, text) if it is a str else (1, value), default (0, "")  -> KT0 s | KT1 z *)
+Inductive kv : Set := KI (z : Z) | KS (s : str) | KT0 (s : str) | KT1 (z : Z).
 
 Fixpoint lex_cmp {A} (c : A -> A -> comparison) (a b : list A) : comparison :=
   match a, b with
@@ -294,41 +299,51 @@ Fixpoint lex_cmp {A} (c : A -> A -> comparison) (a b : list A) : comparison :=
 
 Definition str_cmp : str -> str -> comparison := lex_cmp N.compare.
 
-(* a total order extending Python's (int<int, str<str); mixed pairs are ordered
-   int < str here, Python raises TypeError on them: see [comparable] *)
+Definition kv_rank (a : kv) : nat :=
+  match a with KI _ => 0 | KS _ => 1 | KT0 _ => 2 | KT1 _ => 3 end.
+
+(* a total order that agrees with Python wherever Python can compare: int<int, str<str,
+   (0, text) < (1, number) (text labels before numeric ones); a raw int against a raw str is
+   ordered int < str here, Python raises TypeError on it: see [comparable].  Raw and tagged
+   components never meet (a position is either an int key or not). *)
 Definition kv_cmp (a b : kv) : comparison :=
   match a, b with
   | KI x, KI y => Z.compare x y
   | KS x, KS y => str_cmp x y
-  | KI _, KS _ => Lt
-  | KS _, KI _ => Gt
+  | KT0 x, KT0 y => str_cmp x y
+  | KT1 x, KT1 y => Z.compare x y
+  | _, _ => Nat.compare (kv_rank a) (kv_rank b)
   end.
 
 Definition key_cmp : list kv -> list kv -> comparison := lex_cmp kv_cmp.
 
-(* tuple comparison raises iff the first differing position mixes int and str *)
+(* tuple comparison raises iff the first differing position holds a raw int against a raw str *)
 Fixpoint comparable (a b : list kv) : bool :=
   match a, b with
   | x :: a', y :: b' =>
       match x, y with
       | KI p, KI q => if Z.eqb p q then comparable a' b' else true
       | KS p, KS q => if str_eqb p q then comparable a' b' else true
+      | KT0 p, KT0 q => if str_eqb p q then comparable a' b' else true
+      | KT1 p, KT1 q => if Z.eqb p q then comparable a' b' else true
+      | KT0 _, KT1 _ | KT1 _, KT0 _ => true
       | _, _ => false
       end
   | _, _ => true
   end.
 
-(* sort_issues._get_keys; None = a HedString object used as a sort key (not modelled) *)
+(* sort_issues._get_keys for one key; None = a HedString object used as a sort key (not modelled) *)
 Definition get_key1 (d : list (ckey * cval)) (k : ckey) : option kv :=
+  let is_int := ckey_mem k int_sort_list in
   match dict_get k d with
-  | Some (VStr s) => Some (KS s)
-  | Some (VInt z) => Some (KI z)
+  | Some (VStr s) => Some (if is_int then KS s else KT0 s)
+  | Some (VInt z) => Some (if is_int then KI z else KT1 z)
   | Some (VHed _) => None
-  | None => Some (if ckey_mem k int_sort_list then KI (-1)%Z else KS [])
+  | None => Some (if is_int then KI (-1)%Z else KT0 [])
   end.
 
 Definition get_keys (i : issue) : list kv :=
-  map (fun k => match get_key1 (i_ctx i) k with Some v => v | None => KS [] end) default_sort_list.
+  map (fun k => match get_key1 (i_ctx i) k with Some v => v | None => KT0 [] end) default_sort_list.
 
 Definition keys_modelled (i : issue) : bool :=
   forallb (fun k => match get_key1 (i_ctx i) k with Some _ => true | None => false end) default_sort_list.
